@@ -334,6 +334,19 @@ def judge_mask_sampled(obs, region, mode, subpixels, mask, max_points=4_000_000)
         obs.count('mask_too_large_not_judged')
         return
     n_in, n_amb = sampled_oracle(region, bbox, n)
+    # no weight may be lost outside the mask's box: the one-pixel ring around it holds no member sample
+    import regions as _r
+    ring = _r.RegionBoundingBox(bbox.ixmin - 1, bbox.ixmax + 1, bbox.iymin - 1, bbox.iymax + 1)
+    r_in, r_amb = sampled_oracle(region, ring, n)
+    r_in[1:-1, 1:-1] = 0
+    lost = (r_in > 0)
+    if lost.any():
+        j, i = np.argwhere(lost)[0]
+        obs.violation('member-samples-outside-mask-box:' + cname,
+                      f'{cname} {mode} n={n}: pixel ({ring.ixmin + i}, {ring.iymin + j}) just outside the mask box {bbox!r} has {r_in[j, i]} of {n * n} '
+                      f'sample centres inside the region', region=repr(region)[:300])
+    else:
+        obs.ok(1, 'mask-ring')
     kk = data * (n * n)
     integral = np.abs(kk - np.round(kk)) <= 1e-9 * max(1, n * n)
     if not integral.all():
